@@ -166,6 +166,10 @@ func registerIntrinsics(ex *Executor) {
 		}
 		return nil, cNext
 	}
+	I["@verifInterleave"] = func(ex *Executor, st *State, cc *CallCtx, args []Val) (Val, ctl) {
+		st.Interleave = args[0].(*smt.Term).IsTrue()
+		return nil, cNext
+	}
 	I["@verifBackground"] = func(ex *Executor, st *State, cc *CallCtx, args []Val) (Val, ctl) {
 		return nil, cNext
 	}
@@ -474,9 +478,55 @@ func (ex *Executor) assert(st *State, c *smt.Term, id, msg string) {
 
 // ---------- locks ----------
 
+// maybeSwitch: at a lock operation, optionally (solver-visible Boolean choice) hand the processor to another goroutine.
+// Under data-race freedom the only schedule points that matter are synchronisation operations.
+func (ex *Executor) maybeSwitch(st *State) bool {
+	t := st.th()
+	if !st.Interleave {
+		return false
+	}
+	if t.SkipSwitch {
+		t.SkipSwitch = false
+		return false
+	}
+	if st.Switches >= ex.MaxSwitches {
+		return false
+	}
+	other := -1
+	n := len(st.Threads)
+	for k := 1; k < n; k++ {
+		i := (st.Cur + k) % n
+		o := st.Threads[i]
+		if o.Status == Runnable || (o.Status == Blocked && ex.canResume(st, o)) {
+			other = i
+			break
+		}
+	}
+	if other < 0 {
+		return false
+	}
+	sw := smt.Var(fmt.Sprintf("nd%d_%s", len(st.ND), "sched"), smt.Bool)
+	doSwitch := ex.branch(st, sw)
+	st.ND = append(st.ND[:len(st.ND):len(st.ND)], NDRec{Kind: "sched", Tag: fmt.Sprintf("T%d@%s", t.ID, st.fr().Fn.Name()), T: sw})
+	if !doSwitch {
+		return false
+	}
+	st.Switches++
+	t.SkipSwitch = true
+	if st.Threads[other].Status == Blocked {
+		st.Threads[other].Status = Runnable
+	}
+	st.note("switch T%d->T%d at %s", t.ID, st.Threads[other].ID, st.fr().Fn.Name())
+	st.Cur = other
+	return true
+}
+
 func (ex *Executor) lockOp(st *State, cc *CallCtx, p Ptr, mode byte) (Val, ctl) {
 	if p.Obj == nil {
 		ex.goPanic(st, "lock on nil mutex")
+	}
+	if ex.maybeSwitch(st) {
+		return nil, cSwitch
 	}
 	t := st.th()
 	key := lockKey(p)
@@ -493,7 +543,16 @@ func (ex *Executor) lockOp(st *State, cc *CallCtx, p Ptr, mode byte) (Val, ctl) 
 		t.Locks[key+"#2"] = 'R'
 		return nil, cNext
 	}
-	if l.W || (mode == 'W' && l.R > 0) {
+	writerWaiting := false
+	if mode == 'R' {
+		// Go's RWMutex is writer-preferring: a pending Lock blocks new readers
+		for _, o := range st.Threads {
+			if o != t && o.Status == Blocked && o.BlockKind == "lock" && o.BlockMode == 'W' && lockKey(o.BlockPtr) == key {
+				writerWaiting = true
+			}
+		}
+	}
+	if l.W || (mode == 'W' && l.R > 0) || writerWaiting {
 		t.BlockWhy = fmt.Sprintf("lock %s (%c) in %s", key, mode, cc.Frame.Fn)
 		t.BlockKind, t.BlockPtr, t.BlockMode = "lock", p, mode
 		return nil, cBlock
@@ -508,6 +567,9 @@ func (ex *Executor) lockOp(st *State, cc *CallCtx, p Ptr, mode byte) (Val, ctl) 
 }
 
 func (ex *Executor) unlockOp(st *State, p Ptr, mode byte) (Val, ctl) {
+	if ex.maybeSwitch(st) {
+		return nil, cSwitch
+	}
 	t := st.th()
 	key := lockKey(p)
 	l := ex.load(st, p).(*LockV)
